@@ -67,7 +67,15 @@ NewArena ==
     revived |-> FALSE,        \* a dead object was resurrected in the running finalize callback
     adopted |-> {},           \* targets of strong stores made while a cycle was running (C06)
     wadopted |-> {},          \* targets of weak stores made while a cycle was running (C06)
-    dropping |-> FALSE ]
+    dropping |-> FALSE,
+    \* pacing (C09/C10).  pk: "default" (the crate's non-dyadic default), "exact" (dyadic factors in
+    \* 16ths, logged), "stepping" (the harness drives increments; only mf is known)
+    pk |-> "default", pc |-> [sf |-> 0, ms |-> 0, mf |-> 0, tf |-> 0, kf |-> 0, df |-> 0, ff |-> 0],
+    \* the running cycle, if the monitor saw it wake: allocations alive at wake, allocations since,
+    \* debt positive at the waking call, artificial debt reduction since
+    cyc |-> [valid |-> FALSE, H |-> 0, A |-> 0, wokeDebt |-> FALSE, negAdj |-> FALSE],
+    \* the sleep promise after an atomic cycle: threshold (x16) and allocations since
+    slp |-> [valid |-> FALSE, T |-> 0, A |-> 0] ]
 
 Init0 ==
   [ ar |-> <<>>,              \* arena number -> arena shadow
@@ -76,7 +84,8 @@ Init0 ==
     destructed |-> {}, released |-> {}, everDropped |-> {},
     cb |-> "", cbArena |-> 0, cbMutated |-> FALSE,
     call |-> "", callArena |-> 0, callBefore |-> "", callReach |-> {}, callRes |-> {},
-    callCountBefore |-> 0,
+    callCountBefore |-> 0, callDebtPos |-> FALSE,
+    cbDebt |-> 0, cbFwd |-> 0,
     viol |-> {}, nviol |-> 0, vcount |-> [r \in {} |-> 0],
     hits |-> [r \in {} |-> 0],
     beh |-> -1, line |-> 0, behaviours |-> 0 ]
@@ -135,15 +144,20 @@ OnAlloc(m, e, i) ==
       m1 == [m EXCEPT !.owner = @ @@ (o :> a), !.kind = @ @@ (o :> e.k), !.dtor = @ @@ (o :> e.dtor),
                       !.strong = @ @@ (o :> <<>>), !.weak = @ @@ (o :> <<>>),
                       !.ar[a].objs = @ \cup {o}]
-      m2 == [Mutated(m1, a) EXCEPT !.ar[a].reachValid = m.ar[a].reachValid]   \* a fresh object is not reachable yet
+      m2 == [Mutated(m1, a) EXCEPT !.ar[a].reachValid = m.ar[a].reachValid,   \* a fresh object is not reachable yet
+                                   !.ar[a].cyc.A = @ + 1, !.ar[a].slp.A = @ + 1]
   IN \* C17 (core part): the value is aligned and lies inside the block, after the bookkeeping
      Check(m2, e.tracked, e.off >= 16 /\ e.off % e.align = 0, "C17", "r1", i, o)
 
 MidCycle(m, a) == m.ar[a].phase # "Sleeping"
 
+FwdPaths == {"fwd_some", "fwd_none", "fwd_weak_some", "fwd_weak_none"}
+CountFwd(m, e) == IF Get(e, "path", "") \in FwdPaths THEN [m EXCEPT !.cbFwd = @ + 1] ELSE m
+
 OnStore(m, e, i) ==
   LET a == ArenaOf(e)
-      m0 == IF MidCycle(m, a) THEN [m EXCEPT !.ar[a].adopted = @ \cup {e.c}] ELSE m IN
+      mf == CountFwd(m, e)
+      m0 == IF MidCycle(m, a) THEN [mf EXCEPT !.ar[a].adopted = @ \cup {e.c}] ELSE mf IN
   IF ~e.effective THEN m
   ELSE IF e.p = 0 THEN [Mutated(m0, a) EXCEPT !.ar[a].rootS = Append(@, e.c)]
   ELSE LET single == m.kind[e.p] \in {"L", "O"} IN
@@ -156,7 +170,8 @@ OnRemove(m, e, i) ==
 
 OnWStore(m, e, i) ==
   LET a == ArenaOf(e)
-      m0 == IF MidCycle(m, a) THEN [m EXCEPT !.ar[a].wadopted = @ \cup {e.t}] ELSE m IN
+      mf == CountFwd(m, e)
+      m0 == IF MidCycle(m, a) THEN [mf EXCEPT !.ar[a].wadopted = @ \cup {e.t}] ELSE mf IN
   IF e.p = 0 THEN [Mutated(m0, a) EXCEPT !.ar[a].rootW = Append(@, e.t)]
   ELSE LET single == m.kind[e.p] = "L" IN
        [Mutated(m0, a) EXCEPT !.weak[e.p] = IF single THEN <<e.t>> ELSE Append(@, e.t)]
@@ -166,7 +181,23 @@ OnWRemove(m, e, i) ==
   IF e.p = 0 THEN [Mutated(m, a) EXCEPT !.ar[a].rootW = RemoveOne(@, e.t)]
   ELSE [Mutated(m, a) EXCEPT !.weak[e.p] = RemoveOne(@, e.t)]
 
-OnBarrier(m, e, i) == [m EXCEPT !.ar[ArenaOf(e)].mutSinceWake = TRUE, !.cbMutated = TRUE]
+OnBarrier(m, e, i) == [CountFwd(m, e) EXCEPT !.ar[ArenaOf(e)].mutSinceWake = TRUE, !.cbMutated = TRUE]
+
+MaxI(x, y) == IF x >= y THEN x ELSE y
+OnSetPacing(m, e, i) ==
+  LET a == ArenaOf(e) IN
+  IF Get(e, "stepping", FALSE)
+  THEN [m EXCEPT !.ar[a].pk = "stepping", !.ar[a].pc.mf = e.mf, !.ar[a].cyc.valid = FALSE, !.ar[a].slp.valid = FALSE]
+  ELSE [m EXCEPT !.ar[a].pk = "exact",
+                 !.ar[a].pc = [sf |-> e.sf, ms |-> e.ms, mf |-> e.mf, tf |-> e.tf, kf |-> e.kf, df |-> e.df, ff |-> e.ff],
+                 !.ar[a].cyc.valid = FALSE, !.ar[a].slp.valid = FALSE]
+
+OnAdjustDebt(m, e, i) ==
+  LET a == ArenaOf(e)
+      \* C10 r4: while positive, the debt grows by exactly x (exact for dyadic pacings)
+      m1 == Check(m, m.ar[a].pk \in {"exact", "stepping"} /\ e.before > 0 /\ e.after > 0 /\ e.count > 0,
+                  e.after - e.before = e.xQ, "C10", "r4", i, e.xQ)
+  IN [m1 EXCEPT !.ar[a].cyc.negAdj = @ \/ e.xQ < 0, !.ar[a].slp.valid = FALSE]
 
 \* observations common to cb_begin / cb_end / call_begin / call_end / drop_begin
 ObserveState(m, e, i, outsideCb) ==
@@ -178,12 +209,18 @@ ObserveState(m, e, i, outsideCb) ==
       m3 == Check(m2, TRUE, e.debt_finite /\ e.debt_nonneg, "C10", "r2", i, e.debtQ)
       \* C10 r3: an arena holding no allocation has no debt
       m4 == Check(m3, e.count = 0, e.debtQ = 0, "C10", "r3", i, e.debtQ)
-  IN m4
+      \* C09 r5: after an atomic cycle the collector reports zero debt until the allocations since
+      \* exceed max(min_sleep, sleep_factor x survivors), and positive debt once they do
+      sl == m.ar[a].slp
+      m5 == Check(m4, sl.valid /\ e.phase = "Sleeping" /\ e.count > 0 /\ e.ev # "call_end",
+                  e.debt_pos = (16 * sl.A > sl.T), "C09", "r5", i, sl.A)
+  IN m5
 
 OnCbBegin(m, e, i) ==
   LET a == ArenaOf(e)
       m1 == IF Has(e, "phase") THEN ObserveState(m, e, i, TRUE) ELSE m
   IN [m1 EXCEPT !.cb = e.kind, !.cbArena = a, !.cbMutated = FALSE,
+                !.cbDebt = Get(e, "debtQ", 0), !.cbFwd = 0,
                 !.ar[a].dead = {}, !.ar[a].revived = FALSE]
 
 \* The callback body is over and the callback is unwinding (panic, or Err from a fallible entry
@@ -204,7 +241,19 @@ OnCbEnd(m, e, i) ==
                   after = before \/ (before = "Marked" /\ after = "Marking"), "C08", "r3", i, 0)
       \* C06 r1: none of the barrier paths panics
       m3 == Check(m2, m.cbMutated \/ e.panicked, ~e.panicked \/ e.msg = "injected", "C06", "r1", i, 0)
-  IN [m3 EXCEPT !.cb = ""]
+      \* C10 r5: allocation, mutation and write barriers never decrease the debt.  Known finding F2:
+      \* a forward barrier that marks its child is credited mark_factor (rule r5f, reported apart).
+      exact == m.ar[a].pk \in {"exact", "stepping"}
+      drop == m.cbDebt - Get(e, "debtQ", 0) - (IF exact THEN 0 ELSE 1)
+      canDebt == Has(e, "phase") /\ ~consumed /\ ~e.panicked /\ m.cb \notin {"finalize", ""}
+      \* mark_factor in 16ths (the crate's default pacing has 0.1, i.e. 1.6/16, rounded up)
+      mfQ == IF m.ar[a].pk = "default" THEN 2 ELSE m.ar[a].pc.mf
+      byFwd == m.cbFwd > 0 /\ drop <= mfQ * m.cbFwd
+      m4 == Check(m3, canDebt, drop <= 0 \/ byFwd, "C10", "r5", i, drop)
+      m5 == Check(m4, canDebt /\ m.cbFwd > 0, ~(drop > 0 /\ byFwd), "C10", "r5f", i, drop)
+      \* C10 r6: no metric update overflows, underflows or panics
+      m6 == Check(m5, TRUE, ~Get(e, "arith", FALSE), "C10", "r6", i, 0)
+  IN [m6 EXCEPT !.cb = ""]
 
 OnCallBegin(m, e, i) ==
   LET a == ArenaOf(e)
@@ -214,6 +263,7 @@ OnCallBegin(m, e, i) ==
       \* marking that begins in this call begins with no mutation in between
       m3 == IF e.phase = "Sleeping" THEN [m2 EXCEPT !.ar[a].mutSinceWake = FALSE] ELSE m2
   IN [m3 EXCEPT !.call = e.kind, !.callArena = a, !.callBefore = e.phase, !.callReach = rm[1],
+                !.callDebtPos = e.debt_pos,
                 !.callRes = Close(m2, m2.ar[a].resurrected), !.callCountBefore = e.count]
 
 OnCallEnd(m, e, i) ==
@@ -229,7 +279,44 @@ OnCallEnd(m, e, i) ==
       \* the cycle may have ended in this call: resurrection promises end with the cycle
       ended == after = "Sleeping" \/ (before = "Sweeping" /\ after # "Sweeping") \/ e.kind = "collect_debt"
       began == before \in {"Sweeping"} /\ after \in {"Marking", "Marked"}
-      m5 == [m4 EXCEPT !.call = "",
+      pay == e.kind \in {"collect_debt", "cycle_debt", "mark_debt"}
+      pc == m.ar[a].pc
+      pk == m.ar[a].pk
+      \* C09 r1: collect_debt returns with zero allocation debt
+      m4a == Check(m4, ok /\ e.kind = "collect_debt", ~e.debt_pos, "C09", "r1", i, e.debtQ)
+      \* C09 r2: cycle_debt / mark_debt return with zero debt or at their documented stopping phase
+      m4b == Check(m4a, ok /\ e.kind = "cycle_debt", ~e.debt_pos \/ after = "Sleeping", "C09", "r2", i, e.debtQ)
+      m4c == Check(m4b, ok /\ e.kind = "mark_debt", ~e.debt_pos \/ after = "Marked" \/ before = "Sweeping", "C09", "r2m", i, e.debtQ)
+      \* C09 r3: all work factors zero: called with positive debt, collect_debt / cycle_debt do not
+      \* return until the collector is Sleeping again
+      stw == pk = "exact" /\ pc.mf = 0 /\ pc.tf = 0 /\ pc.kf = 0 /\ pc.df = 0 /\ pc.ff = 0
+      m4d == Check(m4c, ok /\ stw /\ e.kind \in {"collect_debt", "cycle_debt"} /\ m.callDebtPos,
+                   after = "Sleeping", "C09", "r3", i, 0)
+      \* C09 r4: a cycle that woke (with positive debt) with H live allocations is still unfinished
+      \* after a cycle_debt call only if fewer than rho*H/(1-rho) allocations were made since
+      cy == m.ar[a].cyc
+      R == MaxI(pc.mf + pc.tf + pc.kf, MaxI(pc.df + pc.ff, pc.mf + pc.df + pc.kf))
+      m4e == Check(m4d, ok /\ e.kind = "cycle_debt" /\ pk = "exact" /\ R < 16 /\ after # "Sleeping"
+                        /\ before # "Sleeping" /\ cy.valid /\ cy.wokeDebt /\ ~cy.negAdj,
+                   cy.A * (16 - R) < R * cy.H, "C09", "r4", i, cy.A)
+      m4f == Check(m4e, ok /\ e.kind = "cycle_debt" /\ pk = "exact" /\ R < 16 /\ after # "Sleeping"
+                        /\ before = "Sleeping" /\ m.callDebtPos,
+                   0 < R * m.callCountBefore, "C09", "r4", i, 0)
+      \* C09 r5 (second half): asleep with zero debt, a debt-driven call makes no progress
+      m4g == Check(m4f, ok /\ pay /\ before = "Sleeping" /\ ~m.callDebtPos,
+                   after = "Sleeping" /\ e.count = m.callCountBefore, "C09", "r5b", i, 0)
+      m4h == Check(m4g, TRUE, ~Get(e, "arith", FALSE), "C10", "r6", i, 0)
+      \* bookkeeping of the running cycle and of the sleep promise
+      woke == before = "Sleeping" /\ after # "Sleeping"
+      ranAtomic == ok /\ before = "Sleeping" /\ after = "Sleeping" /\ (e.kind = "finish_cycle" \/ (pay /\ m.callDebtPos))
+      crossed == e.kind = "collect_debt" /\ before # "Sleeping"
+      cyc2 == IF woke /\ ok THEN [valid |-> TRUE, H |-> m.callCountBefore, A |-> 0, wokeDebt |-> m.callDebtPos, negAdj |-> FALSE]
+              ELSE IF after = "Sleeping" \/ crossed \/ ~ok THEN [cy EXCEPT !.valid = FALSE] ELSE cy
+      slp2 == IF ranAtomic /\ pk = "exact"
+              THEN [valid |-> TRUE, T |-> MaxI(e.count * pc.sf, 16 * pc.ms), A |-> 0]
+              ELSE IF after # "Sleeping" \/ ~ok \/ (e.kind = "collect_debt" /\ m.callDebtPos) \/ (e.kind = "cycle_debt" /\ m.callDebtPos)
+                   THEN [m.ar[a].slp EXCEPT !.valid = FALSE] ELSE m.ar[a].slp
+      m5 == [m4h EXCEPT !.call = "", !.ar[a].cyc = cyc2, !.ar[a].slp = slp2,
                        !.ar[a].resurrected = IF ended THEN {} ELSE @,
                        !.ar[a].adopted = IF after = "Sleeping" THEN {} ELSE @,
                        !.ar[a].wadopted = IF after = "Sleeping" THEN {} ELSE @,
@@ -400,6 +487,8 @@ Step(m0, e, i) ==
     [] ev = "drop_begin" -> OnDropBegin(m, e, i)
     [] ev = "drop_end"   -> OnDropEnd(m, e, i)
     [] ev = "end"        -> OnEnd(m, e, i)
+    [] ev = "set_pacing" -> OnSetPacing(m, e, i)
+    [] ev = "adjust_debt" -> OnAdjustDebt(m, e, i)
     [] OTHER             -> m       \* skip, adjust_debt, ...: no rule
 
 =============================================================================
